@@ -61,6 +61,7 @@ type symT struct {
 	Num    string `json:"num"`
 	Min    string `json:"min"`
 	PinNR  bool   `json:"pinNotReserved"`
+	Val    int    `json:"val"` // marker the binding holds at the end (-2: undefined)
 }
 type caseT struct {
 	Sloppy  bool     `json:"sloppy"`
@@ -729,6 +730,13 @@ func wnames(c *caseT, mode string) []string {
 	return out
 }
 
+// treeHash identifies a case by the tree alone (not by the predictions exported
+// with it), so that the order of the cases and the configurations picked for
+// them do not change when the specification exports another prediction
+func treeHash(c *caseT) string {
+	return core.Hash(map[string]interface{}{"sloppy": c.Sloppy, "scopes": c.Scopes, "decls": c.Decls, "refs": c.Refs})
+}
+
 func inputKind(c *caseT) string {
 	if c.Sloppy {
 		return "script"
@@ -970,6 +978,21 @@ func compare(r *core.Run, u *unit, results map[string]*jobResult, st *stats) {
 					driftMsg = fmt.Sprintf("reference %s: the specification resolves it to %v, V8 reads %v (with-mode %s)", id, want, got, w)
 				}
 			}
+			// the final value of every top-level binding of an unwrapped script (read back by
+			// name): specification vs V8 (e.g. V8 hoists a sloppy block function past an
+			// enclosing block function of the same name, B.3.3 does not)
+			for _, y := range c.Syms {
+				if !c.Sloppy || !y.Top || y.Lvl != "m" || y.Val == 0 { // 0: a record without the prediction (old replay file)
+					continue
+				}
+				var want interface{} = float64(marker(y.Val))
+				if y.Val == -2 {
+					want = "undefined"
+				}
+				if got, ok := in.Probes[y.N]; ok && !eqVal(got, want) {
+					driftMsg = fmt.Sprintf("top-level name %s: the specification predicts the final value %v, V8 reads %v", y.N, want, got)
+				}
+			}
 		}
 	}
 	st.mu.Lock()
@@ -1168,7 +1191,7 @@ func replay(r *core.Run) {
 		r.Infra("replay case undecodable: %v", err)
 		return
 	}
-	u := &unit{idx: 0, raw: rec.Detail.Case, c: &c, hash: core.Hash(json.RawMessage(rec.Detail.Case))}
+	u := &unit{idx: 0, raw: rec.Detail.Case, c: &c, hash: treeHash(&c)}
 	u.configs = allConfigs(&c, render(&c, false))
 	st := &stats{byCoinc: map[string]int{}, byConfig: map[string]int{}, rejectedWhy: map[string]int{}}
 	process(r, []*unit{u}, st)
@@ -1242,7 +1265,7 @@ func Run(r *core.Run) {
 				cp := append([]byte{}, raw...)
 				var c caseT
 				if json.Unmarshal(cp, &c) == nil {
-					units = append(units, &unit{raw: cp, c: &c, hash: core.Hash(json.RawMessage(cp))})
+					units = append(units, &unit{raw: cp, c: &c, hash: treeHash(&c)})
 				}
 			}})
 		if err != nil {
@@ -1302,16 +1325,16 @@ func Run(r *core.Run) {
 		t0 := time.Now()
 		var units []*unit
 		sink := func(raw []byte) {
-			h := core.Hash(json.RawMessage(raw))
-			if seen[h] {
-				return
-			}
-			seen[h] = true
 			var c caseT
 			if err := json.Unmarshal(raw, &c); err != nil {
 				r.Infra("undecodable CASE record: %v", err)
 				return
 			}
+			h := treeHash(&c)
+			if seen[h] {
+				return
+			}
+			seen[h] = true
 			units = append(units, &unit{idx: total + len(units), raw: raw, c: &c, hash: h})
 		}
 		// rounds grow (fixed schedule): the first ones are small so that a problem shows early
